@@ -330,11 +330,11 @@ class C07(Check):
         b = trace(o2, rays, w)
         rows_a = list(range(K + 2))
         rows_b = [r for r in range(K + 3) if r != i + 2]
+        self.note(out, spec, a)              # (on the full record: row k = surface k)
         if spec['obj']['t'] == GL.INF:
             a, b = self.from_first_surface(a), self.from_first_surface(b)
             rows_a = list(range(K + 1))
             rows_b = [r for r in range(K + 2) if r != i + 1]
-        self.note(out, spec, a)
         self.same(out, 'dummy_surface_changes_nothing', a, b, rows=(rows_a, rows_b), at=i + 1, frac=case['frac'])
         P, P2 = o.paraxial, o2.paraxial
         for nm in ('f2', 'F2', 'EPL', 'EPD'):
@@ -479,9 +479,20 @@ class C07(Check):
         b = trace(o2, case['rays'], w)
         n = a['x'].shape[0]
         rows = (list(range(1, n)), list(range(1, n)))
-        sc = {k: self.Lsc * max(1.0, s) for k in ('x', 'y', 'z', 'opd')}
+        Lc = self.Lsc
+        if spec['obj']['t'] != GL.INF:
+            # a finite object far away: the first conic root is found from the distance D and carries eps a D^2
+            # (a = |c| max(1, |1+k|)); a steep exit (direction cosine N) amplifies it by 1/N^2 at the next surface
+            amax = max([abs(1.0 / GL.fl(q['R'])) * max(1.0, abs(1.0 + q.get('k', 0.0))) for q in spec['surfs'][:1]
+                        if q['R'] != GL.INF] + [0.0])
+            with np.errstate(all='ignore'):
+                Nmin = np.nanmin(np.abs(np.where(np.isfinite(a['N'][1:]), a['N'][1:], np.nan))) if a['N'][1:].size else 1.0
+            amp = min(1e3, 1.0 / max(float(Nmin) ** 2, 1e-3)) if np.isfinite(Nmin) else 1.0
+            Lc = max(Lc, 1e-5 * amax * float(GL.fl(spec['obj']['t'])) ** 2 * amp)
+        sc = {k: Lc * max(1.0, s) for k in ('x', 'y', 'z', 'opd')}
         self.note(out, tw, a)
         self.note(out, tw, b)
+        nz_v = self.nz                   # (the parabola-noise allowance, also needed by the intensity clause below)
         self.same(out, 'scale_system_traces_like_the_scaled_lens', a, b, keys=('x', 'y', 'z', 'L', 'M', 'N', 'opd'),
                   rows=rows, scale=sc, tol=1e-9, s=s)
         # intensities too (apertures are scaled with the lens): judged for rays that do not graze an aperture edge
@@ -498,7 +509,16 @@ class C07(Check):
                     graze |= ~np.isfinite(r)
             ia = np.where(np.isfinite(a['intensity']), a['intensity'], np.nan)[1:, ~graze]
             ib = np.where(np.isfinite(b['intensity']), b['intensity'], np.nan)[1:, ~graze]
-            out.close('scale_system_keeps_the_vignetting', ia, ib, atol=1e-12, rtol=1e-9, s=s)
+            if nz_v is not None and nz_v[0].shape[0] == a['x'].shape[1]:
+                # known finding C07-parabola-cancellation: a displaced intersection point changes the absorbing path
+                extra = (nz_v[0] * self.alpha)[~graze][None, :]
+                with np.errstate(all='ignore'):
+                    bad = np.abs(ia - ib) > 1e-12 + 1e-9 * np.abs(ib) + extra
+                    bad |= np.isnan(ia) != np.isnan(ib)
+                out.expect('scale_system_keeps_the_vignetting', not np.any(bad), s=s, weakened='C07-parabola-cancellation',
+                           max_err=float(np.nanmax(np.where(bad, np.abs(ia - ib), 0.0))) if np.any(bad) else 0.0)
+            else:
+                out.close('scale_system_keeps_the_vignetting', ia, ib, atol=1e-12, rtol=1e-9, s=s)
         out.nt(s < 0.5 or s > 2.0)
 
 
